@@ -133,6 +133,85 @@ fn run_walk(wk: Walk, w: &mut Worker) {
     }
 }
 
+/// The same accounting on ONE long-lived SigningKey object (the object keygen returned, or one
+/// loaded once from bytes), used up through try_sign with a lifetime query before every signature
+/// and further calls after the end.
+fn run_object_walk(wk: Walk, from_keygen: bool, w: &mut Worker) {
+    use crate::libcall::{KeyObs, KeyOp};
+    let lvs = model::params::levels_to_string(&wk.levels);
+    let n = wk.alg.n();
+    let total = hss::total_leaves(&wk.levels) as u64;
+    let key = |what: &str| format!("C05:object:{what}:{}:{}:{}", wk.alg.name(), lvs, if from_keygen { "from-keygen" } else { "from-bytes" });
+    let mut ops: Vec<KeyOp> = Vec::new();
+    for i in 0..total {
+        ops.push(KeyOp::Lifetime);
+        ops.push(if i % 2 == 0 { KeyOp::TrySign(format!("object walk {i}").into_bytes()) } else { KeyOp::TrySignAuxNone(format!("object walk {i}").into_bytes()) });
+    }
+    ops.push(KeyOp::Bytes);
+    for _ in 0..2 {
+        ops.push(KeyOp::Lifetime);
+        ops.push(KeyOp::TrySign(b"after the end".to_vec()));
+    }
+    ops.push(KeyOp::Bytes);
+    let start = hss::make_blob(0, &wk.levels, &wk.seed);
+    let replay = || shared::replay_doc("C05", wk.alg, &wk.levels, &wk.seed, 0, &[]).with("object", J::s(if from_keygen { "SigningKey returned by keygen" } else { "SigningKey::from_bytes(fresh key)" }));
+    let (_, obs) = match libcall::key_object_session(wk.alg, &wk.levels, &wk.seed, from_keygen, &start, &ops) {
+        Some(x) => x,
+        None => {
+            w.report.violation(&key("create"), "the signing key object could not be created", replay());
+            return;
+        }
+    };
+    let cfg = crate::common::lcfg(wk.alg);
+    let vk = hss::public_key(&cfg, &mut w.cache, &wk.levels, &wk.seed);
+    let mut k = 0usize;
+    for i in 0..total {
+        w.report.eval();
+        if obs[k] != KeyObs::Lifetime(Out::Ok(total - i)) {
+            w.report.violation(&key("lifetime_step"), &format!("long-lived key object: after {i} signatures get_lifetime returns {:?}, expected {}", obs[k], total - i), replay());
+        }
+        match &obs[k + 1] {
+            KeyObs::Signed(Out::Ok(sig)) => {
+                let msg = format!("object walk {i}").into_bytes();
+                if !hss::verify(&cfg, &msg, sig, &vk) {
+                    w.report.violation(&key("invalid_signature"), &format!("long-lived key object: signature #{} does not verify", i + 1), replay());
+                }
+            }
+            other => {
+                w.report.violation(&key("early_refusal"), &format!("long-lived key object: signature #{} of {total} was not released: {other:?}", i + 1), replay());
+                return;
+            }
+        }
+        w.report.distinct(&format!("object|{}|{}|{}|{}", wk.alg.name(), lvs, from_keygen, i));
+        k += 2;
+    }
+    w.report.count("object_walk_signatures", total as i128);
+    // after the last leaf
+    if let KeyObs::Bytes(b) = &obs[k] {
+        w.report.eval();
+        if !hss::is_wiped(b, n) {
+            w.report.violation(&key("not_wiped"), &format!("long-lived key object: bytes after the last signature are not the wiped key: {}", model::json::hex(b)), replay());
+        }
+    }
+    k += 1;
+    for _ in 0..2 {
+        w.report.eval();
+        if !matches!(&obs[k], KeyObs::Lifetime(Out::Err)) {
+            w.report.violation(&key("lifetime_after_exhaustion"), &format!("long-lived key object: get_lifetime after the last signature returned {:?} instead of an error", obs[k]), replay());
+        }
+        if !matches!(&obs[k + 1], KeyObs::Signed(Out::Err)) {
+            w.report.violation(&key("signs_after_exhaustion"), &format!("long-lived key object: try_sign after the last signature returned {:?}", obs[k + 1]), replay());
+        }
+        k += 2;
+    }
+    if let KeyObs::Bytes(b) = &obs[k] {
+        if !hss::is_wiped(b, n) {
+            w.report.violation(&key("unwiped_by_failing_call"), "long-lived key object: failing calls after the end changed the wiped key", replay());
+        }
+    }
+    w.report.count("object_walks", 1);
+}
+
 pub fn run(ctx: &Ctx) -> Report {
     let mut rng = ctx.rng("c05");
     let mut walks = Vec::new();
@@ -163,19 +242,36 @@ pub fn run(ctx: &Ctx) -> Report {
         let cb = shared::sign_cost(b.alg, &b.levels) * hss::total_leaves(&b.levels) as f64 * if b.every { 2.0 } else { 1.0 };
         cb.partial_cmp(&ca).unwrap()
     });
+    // long-lived key objects: the small shapes of every hash, both ways of obtaining the object
+    let mut objs: Vec<(Walk, bool)> = Vec::new();
+    for alg in model::ALL_ALGS {
+        let w5 = if alg.is_shake() { 2 } else { 8 };
+        for (si, spec) in [vec![(2u32, 8u32)], vec![(2, 4), (2, 8)], vec![(5, w5)], vec![(2, 8), (2, 2), (2, 4)]].iter().enumerate() {
+            if ctx.quick() && si == 3 && alg.n() != 32 {
+                continue;
+            }
+            for from_keygen in [true, false] {
+                objs.push((Walk { alg, levels: levels(spec), seed: rng.bytes(alg.n()), every: true }, from_keygen));
+            }
+        }
+    }
     let mut rep = par_run(ctx, walks, |wk, w| run_walk(wk, w));
+    rep.merge(par_run(ctx, objs, |(wk, fk), w| run_object_walk(wk, fk, w)));
     let e2e_distinct = rep.distinct_count();
     // (ii) accounting arithmetic, exhaustive over the lists with sum(h) <= 63
     let acc = arith::enumerate(ctx, "C05", Mode::Accounting, &WITH_H2, ctx.size(2, 8));
     rep.merge(acc);
     rep.exhaustive = Some(true);
     rep.count("end_to_end_distinct_states", e2e_distinct as i128);
-    rep.rule = "end to end: complete lifetimes of 1..4-level keys (uniform and mixed heights, all 6 hashes) with get_lifetime queried before every signature (around roll-overs only on the 128-leaf and larger shapes), the key handed over with the last signature must be wiped, then 3 rounds of sign (3 entry points) / get_lifetime on the exhausted key must fail with no callback; \
+    rep.rule = "end to end: complete lifetimes of 1..4-level keys (uniform and mixed heights, all 6 hashes) with get_lifetime queried before every signature (around roll-overs only on the 128-leaf and larger shapes), the key handed over with the last signature must be wiped, then 3 rounds of sign (3 entry points) / get_lifetime on the exhausted key must fail with no callback; the same on ONE long-lived SigningKey object (the object keygen returned, and one loaded once from bytes) used up through try_sign / try_sign_with_aux with a lifetime query before every signature and calls after the end; \
                 exhaustive accounting: every list of 1..8 heights over {2,5,10,15,20,25} with sum(h)<=63 x boundary counters through the hook accessors (remaining = leaves - c, successor = c+1 or wiped at the last leaf); \
                 distinct_nontrivial = distinct (hash, shape, counter) lifetime observations + (list, counter) pairs of the enumeration"
         .into();
     if rep.counter("exhaustions") == 0 {
         rep.inconclusive("no key was exhausted");
+    }
+    if rep.counter("object_walks") == 0 {
+        rep.inconclusive("no long-lived key object was walked");
     }
     if rep.counter("lists") == 0 {
         rep.inconclusive("accounting enumeration did not run");
